@@ -231,10 +231,26 @@ class SafeConstructor(BaseConstructor):
     }
 
     def construct_yaml_bool(self, node):
+        try:
+            return self._construct_yaml_bool(node)
+        except (ValueError, KeyError, IndexError, AttributeError, OverflowError) as exc:
+            raise ConstructorError(None, None,
+                    "failed to construct a bool value: %s" % exc,
+                    node.start_mark)
+
+    def _construct_yaml_bool(self, node):
         value = self.construct_scalar(node)
         return self.bool_values[value.lower()]
 
     def construct_yaml_int(self, node):
+        try:
+            return self._construct_yaml_int(node)
+        except (ValueError, KeyError, IndexError, AttributeError, OverflowError) as exc:
+            raise ConstructorError(None, None,
+                    "failed to construct an int value: %s" % exc,
+                    node.start_mark)
+
+    def _construct_yaml_int(self, node):
         value = self.construct_scalar(node)
         value = value.replace('_', '')
         sign = +1
@@ -268,6 +284,14 @@ class SafeConstructor(BaseConstructor):
     nan_value = -inf_value/inf_value   # Trying to make a quiet NaN (like C99).
 
     def construct_yaml_float(self, node):
+        try:
+            return self._construct_yaml_float(node)
+        except (ValueError, KeyError, IndexError, AttributeError, OverflowError) as exc:
+            raise ConstructorError(None, None,
+                    "failed to construct a float value: %s" % exc,
+                    node.start_mark)
+
+    def _construct_yaml_float(self, node):
         value = self.construct_scalar(node)
         value = value.replace('_', '').lower()
         sign = +1
@@ -320,6 +344,14 @@ class SafeConstructor(BaseConstructor):
                 (?::(?P<tz_minute>[0-9][0-9]))?))?)?$''', re.X)
 
     def construct_yaml_timestamp(self, node):
+        try:
+            return self._construct_yaml_timestamp(node)
+        except (ValueError, KeyError, IndexError, AttributeError, OverflowError) as exc:
+            raise ConstructorError(None, None,
+                    "failed to construct a timestamp value: %s" % exc,
+                    node.start_mark)
+
+    def _construct_yaml_timestamp(self, node):
         value = self.construct_scalar(node)
         match = self.timestamp_regexp.match(node.value)
         values = match.groupdict()
